@@ -72,3 +72,16 @@ Definition check_validation (c : case17) : report :=
   end.
 
 Definition check_validation_cases (l : list case17) : list string := render (map check_validation l).
+
+(* C04's view of the same runs: whatever the platform flags, what is printed is the engine's answer for exactly those flags
+   (the in-process reference is computed with the options the flags spell out) *)
+Definition check_platform_flags (c : case17) : report :=
+  match c with
+  | KSearch s =>
+      let v := if s_panic s || negb (Z.eqb (s_exit s) 0) || negb (s_accepted s && s_limit_ok s) then None
+               else if negb (list_eqb (item_eqb (s_format s)) (s_printed s) (expected_items s)) then Some "cli_filters_as_flagged" else None in
+      {| r_verdict := match v with Some cl => VPredFail cl | None => VOk end;
+         r_trivial := match s_printed s with [] => true | _ => false end; r_tags := ["cli"] |}
+  | _ => {| r_verdict := VOk; r_trivial := true; r_tags := ["cli-other"] |}
+  end.
+Definition check_platform_flags_cases (l : list case17) : list string := render (map check_platform_flags l).
